@@ -9,12 +9,15 @@ import (
 	"math"
 	"os"
 	"reflect"
+	"runtime"
 	"strconv"
+	"strings"
 	"sync"
 	"time"
 	"unsafe"
 
 	"github.com/alibaba/sentinel-golang/util"
+	"github.com/alibaba/sentinel-golang/zzverif/verifpt"
 )
 
 type replayInput struct {
@@ -27,6 +30,7 @@ type replayFile struct {
 	Inputs    []replayInput    `json:"inputs"`
 	Params    map[string]int64 `json:"params"`
 	KnownOpen []string         `json:"known_open"`
+	Schedule  []int            `json:"schedule"`
 }
 
 type abort struct{ why string }
@@ -155,14 +159,58 @@ func (c *symClock) Sleep(d time.Duration) {
 	c.mu.Unlock()
 }
 func (c *symClock) CurrentTimeMillis() uint64 {
+	if v, ok := threadClock(); ok {
+		return v
+	}
 	c.mu.Lock()
 	defer c.mu.Unlock()
 	return c.ms
 }
 func (c *symClock) CurrentTimeNano() uint64 {
+	if v, ok := threadClock(); ok {
+		return v
+	}
 	c.mu.Lock()
 	defer c.mu.Unlock()
 	return c.ns
+}
+
+// threadClock: while a schedule is replayed and the harness chose a thread clock mode, every clock
+// read of the code under test takes the next recorded value (mode 1: thread-local clocks; mode 2:
+// reads are ordered visible operations; mode 3: as 2, but reads from core/stat/base see the frozen time).
+var lastClock = map[int]uint64{}
+
+func threadClock() (uint64, bool) {
+	mode := flags["threadclock"]
+	if mode == 0 || !schedMode || !verifpt.Active() {
+		return 0, false
+	}
+	if mode == 3 {
+		// frames: threadClock <- symClock.CurrentTimeX <- util.CurrentTimeX <- caller
+		var pcs [8]uintptr
+		n := runtime.Callers(2, pcs[:])
+		fr := runtime.CallersFrames(pcs[:n])
+		for i := 0; ; i++ {
+			f, more := fr.Next()
+			if i == 2 {
+				if strings.Contains(f.Function, "core/stat/base.") {
+					return 0, false
+				}
+				break
+			}
+			if !more {
+				break
+			}
+		}
+	}
+	if mode >= 2 {
+		verifpt.Point()
+	}
+	v := next("clk")
+	mu.Lock()
+	lastClock[verifpt.Tid()] = v
+	mu.Unlock()
+	return v, true
 }
 
 func install() {
@@ -188,11 +236,53 @@ func LastSleepNs() int64    { clk.mu.Lock(); defer clk.mu.Unlock(); return clk.l
 func SleepCount() int       { clk.mu.Lock(); defer clk.mu.Unlock(); return clk.sleeps }
 
 // ---- threads (sequential natively; interleaving replays use the instrumented scheduler) ----
-func Spawn(f func())    { f() }
-func Join()             {}
-func Yield()            {}
-func LastClock() uint64 { return 0 }
-func Tid() int          { return 0 }
+var schedMode = os.Getenv("VERIF_SCHED") == "1" // the binary is instrumented and the replay file carries a schedule
+
+func Spawn(f func()) {
+	if !schedMode {
+		f()
+		return
+	}
+	verifpt.Start(rf.Schedule)
+	verifpt.Spawn(func() {
+		defer func() {
+			if r := recover(); r != nil {
+				if a, ok := r.(abort); ok {
+					mu.Lock()
+					Diverged = a.why
+					mu.Unlock()
+					return
+				}
+				mu.Lock()
+				Failures = append(Failures, fmt.Sprint("panic in a spawned thread: ", r))
+				mu.Unlock()
+				fmt.Println("REPLAY-PANIC:", r)
+			}
+		}()
+		f()
+	})
+}
+func Join() {
+	if schedMode {
+		verifpt.Join()
+	}
+}
+func Yield() {
+	if schedMode {
+		verifpt.Point()
+	}
+}
+func LastClock() uint64 {
+	mu.Lock()
+	defer mu.Unlock()
+	return lastClock[verifpt.Tid()]
+}
+func Tid() int {
+	if t := verifpt.Tid(); t >= 0 {
+		return t
+	}
+	return 0
+}
 
 // ---- state access ----
 func fieldOf(obj interface{}, path string) reflect.Value {
@@ -276,6 +366,12 @@ func RunReplay(h func()) (failures []string, panicked interface{}, diverged stri
 		}()
 		h()
 	}()
+	if diverged == "" {
+		diverged = Diverged
+	}
+	if d := verifpt.Diverged(); d != "" && diverged == "" {
+		diverged = d
+	}
 	return Failures, panicked, diverged
 }
 
